@@ -404,6 +404,12 @@ def get_intersecting_triangles(vertices, triangles, r=None, r_factor=1.5, eps=1e
     if r_factor < 1:  # pragma: no cover
         raise ValueError("r_factor must be greater or equal to 1")
 
+    # make dimensionless: the single precision copy and eps assume a mesh size of order 1
+    scale = np.max(np.ptp(vertices, axis=0)) if len(vertices) else 0
+    if scale > 0:
+        vertices = vertices / scale
+        if r is not None:
+            r = r / scale
     vertices = vertices.astype(np.float32)
     facets = vertices[triangles]
     centers = np.mean(facets, axis=1)
